@@ -73,6 +73,12 @@ func chooseAlternative(expr *grammar.Grammar, alternatives []bsr.BSR) *bsr.BSR {
 }
 
 func isSlashMultiply(expr *grammar.Grammar, b *bsr.BSR) bool {
+	// The two readings can also be two parses of the multiplication itself,
+	// with different operand boundaries ("7 * //b | /*/c").
+	if b.Label.Slot().NT == symbols.NT_MultiplicativeExprMultiply {
+		return multiplyFollowsSlash(expr, b)
+	}
+
 	if b.Label.Slot().NT != symbols.NT_MultiplicativeExpr {
 		return false
 	}
